@@ -20,6 +20,9 @@ THEOREMS = [
     "C16.sample_once",
     "C16.twm_pending_on_fire",
     "C16.twm_fire_rule",
+    "C16.debounce_sim_bridge",
+    "C16.throttle_first_sim_bridge",
+    "C16.sample_tie_rule_derived",
 ]
 RULE = ("20% of the non-mapper cases subscribe the SAME observable instance a second time (overlapping or later) and compare with a fresh single subscription; timelines of 0..7 elements + terminal (completed/error/none; 12% non-conforming or with pre-subscription messages): bursts, gaps of exactly "
         "d-1/d/d+1 ticks, elements at / around sampler ticks, terminal with a pending element, simultaneous arrivals; hot and cold sources; "
@@ -236,4 +239,4 @@ def shrink(case):
 
 
 LEVEL_TEXT = ('Lean theorems, for all timelines (no bound, no sortedness needed), due times and element types: the handler-level models of throttle_first (last_on_next fold), debounce (id / has_value / value + Serial timer with the (due,seq) tie rule inlined) and sample (latest / has_value / at_end against an arbitrary list of sampler events) equal the declarative rules of the property text (window rule; emit iff the next source notification is later than t+d, flush at completion, drop at error; latest not-yet-sampled element at each tick); throttle_with_mapper as a trace machine equals the pending-element rule on every event interleaving. Tied to the code by differential runs on TestScheduler (hot/cold sources, gaps exactly d, bursts, terminal with a pending element, sampler as interval or observable) and by oracles written from the property text.')
-LEVEL_NOTE = ('sample(period): the tick list of interval(period) (sub+k*period below the disposal time) is driver glue; the theorem is for any tick list. throttle_with_mapper / sample(observable): the global event order is built by a stable merge in the driver (validated by the correspondence only). Trusted: correspondence harness, generators, the inlined scheduler tie rule (source first, except cold source vs hot sampler).')
+LEVEL_NOTE = ('sample(period): the tick list of interval(period) (sub+k*period below the disposal time) is driver glue; the theorem is for any tick list. throttle_with_mapper / sample(observable): the global event order is built by a stable merge in the driver (validated by the correspondence only). The (due, seq) tie rule is no longer assumed for debounce, throttle_first and sample(observable): *_sim_bridge / sample_tie_rule_derived prove that a scheduler simulation (queue ordered by due time then insertion, hot messages scheduled first, same handler functions) equals the two-stream runs; the driver also runs it on every case. Trusted: correspondence harness, generators, that the messages of a hot source are scheduled before the timers of the operator.')
